@@ -6,6 +6,7 @@ import (
 	"crypto/sha256"
 	"fmt"
 	"net"
+	"sort"
 	"strings"
 	"time"
 
@@ -46,6 +47,8 @@ type c01bTamper struct {
 	armed bool
 	what  string
 	prev  map[string][]proto.Message
+	// coordinated forgery of a VerifiableSQLGet response: the ids of these two columns change places
+	swapCols [2]string
 }
 
 func (t *c01bTamper) intercept(ctx context.Context, method string, req, reply interface{}, cc *grpc.ClientConn, invoker grpc.UnaryInvoker, opts ...grpc.CallOption) error {
@@ -55,6 +58,11 @@ func (t *c01bTamper) intercept(ctx context.Context, method string, req, reply in
 		return err
 	}
 	honest := proto.Clone(m)
+	if ve, ok := m.(*schema.VerifiableSQLEntry); ok && t.swapCols[0] != "" {
+		a, b := t.swapCols[0], t.swapCols[1]
+		ve.ColIdsByName[a], ve.ColIdsByName[b] = ve.ColIdsByName[b], ve.ColIdsByName[a]
+		t.r.Logf("tamper VerifiableSQLGet: ColIdsByName of %s and %s exchanged", a, b)
+	}
 	if t.armed {
 		t.armed = false
 		t.what = method[strings.LastIndex(method, "/")+1:] + ": " + t.alter(m, t.prev[method])
@@ -73,6 +81,7 @@ type c01bLeaf struct {
 	fd   protoreflect.FieldDescriptor
 	idx  int // element of a repeated scalar field, -1 otherwise
 	list bool
+	mkey *protoreflect.MapKey // entry of a map field with scalar values
 }
 
 func c01bLeaves(prefix string, m protoreflect.Message, out *[]c01bLeaf) {
@@ -80,6 +89,14 @@ func c01bLeaves(prefix string, m protoreflect.Message, out *[]c01bLeaf) {
 		p := prefix + string(fd.Name())
 		switch {
 		case fd.IsMap():
+			if fd.MapValue().Kind() == protoreflect.MessageKind {
+				break
+			}
+			v.Map().Range(func(k protoreflect.MapKey, _ protoreflect.Value) bool {
+				kk := k
+				*out = append(*out, c01bLeaf{path: fmt.Sprintf("%s[%s]", p, k.String()), msg: m, fd: fd, idx: -1, mkey: &kk})
+				return true
+			})
 		case fd.IsList():
 			l := v.List()
 			if l.Len() > 0 {
@@ -147,6 +164,29 @@ func (t *c01bTamper) alter(m proto.Message, older []proto.Message) string {
 			l.Truncate(0)
 			return lf.path + " emptied"
 		}
+	}
+	if lf.mkey != nil {
+		// an entry of a map with scalar values: it takes the value of another entry, or moves
+		mp := lf.msg.Mutable(lf.fd).Map()
+		var others []string
+		vals := map[string]protoreflect.Value{}
+		mp.Range(func(k protoreflect.MapKey, v protoreflect.Value) bool {
+			if k.String() != lf.mkey.String() {
+				others = append(others, k.String())
+				vals[k.String()] = v
+			}
+			return true
+		})
+		sort.Strings(others)
+		if len(others) > 0 && r.Pct(70) {
+			o := others[r.Intn(len(others))]
+			if !vals[o].Equal(mp.Get(*lf.mkey)) {
+				mp.Set(*lf.mkey, vals[o])
+				return lf.path + " given the value of entry " + o
+			}
+		}
+		mp.Clear(*lf.mkey)
+		return lf.path + " removed"
 	}
 	get := func() protoreflect.Value {
 		if lf.idx >= 0 {
@@ -566,7 +606,103 @@ func c01bBody(r *simcore.Run) {
 			known = ns
 		}
 	}
-	r.Sig("c01b", nOps, tampered > 0, rejected > 0, harmless > 0, docProofs > 0)
+
+	// SQL row proofs: the client's VerifyRow against rows the honest server returned — or rows
+	// altered on the way — with the same adversary on the VerifiableSQLGet response
+	rowProofs := 0
+	if r.Pct(50) {
+		exec := func(q string) {
+			if _, err := rawc.SQLExec(hctx, &schema.SQLExecRequest{Sql: q}); err != nil {
+				r.Violation("honest-write", "", "SQLExec(%s) failed on the honest server: %v", q, err)
+			}
+		}
+		exec("CREATE TABLE t1 (id INTEGER, a INTEGER, b INTEGER, s VARCHAR[24], f BOOLEAN, PRIMARY KEY id)")
+		nRows := 2 + r.Intn(3)
+		for i := 1; i <= nRows; i++ {
+			if r.Pct(30) {
+				exec(fmt.Sprintf("INSERT INTO t1 (id, a, b, f) VALUES (%d, %d, %d, %v)", i, 10*i+1, 10*i+2, i%2 == 0))
+			} else {
+				exec(fmt.Sprintf("INSERT INTO t1 (id, a, b, s, f) VALUES (%d, %d, %d, 'row-%d', %v)", i, 10*i+1, 10*i+2, i, i%2 == 0))
+			}
+			if r.Bool() {
+				rawc.Set(hctx, &schema.SetRequest{KVs: []*schema.KeyValue{{Key: []byte("filler"), Value: []byte{byte(i)}}}})
+			}
+			if r.Pct(30) {
+				exec(fmt.Sprintf("UPDATE t1 SET b = %d WHERE id = %d", 1000+i, 1+r.Intn(i)))
+			}
+		}
+		for round := 0; round < 3+r.Intn(5); round++ {
+			qr, err := rawc.UnarySQLQuery(hctx, &schema.SQLQueryRequest{Sql: "SELECT id, a, b, s, f FROM t1"})
+			r.Must(err, "SQLQuery")
+			if len(qr.Rows) != nRows {
+				r.Violation("honest-read", "", "SELECT returned %d rows, %d were inserted", len(qr.Rows), nRows)
+			}
+			row := proto.Clone(qr.Rows[r.Intn(len(qr.Rows))]).(*schema.Row)
+			pk := []*schema.SQLValue{row.Values[0]}
+			altered := ""
+			coordinated := false
+			if r.Pct(45) {
+				switch r.Intn(4) {
+				case 0:
+					row.Values[1] = &schema.SQLValue{Value: &schema.SQLValue_N{N: row.Values[1].GetN() + 1}}
+					altered = "column a increased by 1"
+				case 1:
+					row.Values[1], row.Values[2] = row.Values[2], row.Values[1]
+					altered = "values of a and b swapped"
+					coordinated = r.Pct(50)
+				case 2:
+					row.Values[3] = &schema.SQLValue{Value: &schema.SQLValue_S{S: row.Values[3].GetS() + "!"}}
+					altered = "column s changed (a NULL becomes a string)"
+				default:
+					row.Values[4] = &schema.SQLValue{Value: &schema.SQLValue_B{B: !row.Values[4].GetB()}}
+					altered = "column f negated"
+				}
+			}
+			tamper := trustedTx(cur) > 0 && r.Pct(35) && !coordinated
+			if tamper {
+				tam.armed, tam.what = true, ""
+			}
+			if coordinated {
+				// the server that altered the row also adjusts the (unproven) description of the
+				// table it sends along: the ids of a and b change places
+				tam.swapCols = [2]string{row.Columns[1], row.Columns[2]}
+			}
+			var verr error
+			pv, stack := r.Catch(func() { verr = cur.VerifyRow(ctx, row, "t1", pk) })
+			wasTampered := tamper && tam.what != ""
+			tam.armed = false
+			tam.swapCols = [2]string{}
+			what := fmt.Sprintf("VerifyRow(t1, id=%d)", pk[0].GetN())
+			if pv != nil {
+				r.Violation("panic", "", "%s panicked (row altered: %q, response altered: %v %s): %v\n%s", what, altered, wasTampered, tam.what, pv, stack)
+			}
+			r.Logf("%s row-altered=%q coordinated=%v tampered=%v %s -> %v", what, altered, coordinated, wasTampered, tam.what, verr)
+			rowProofs++
+			if altered == "" && !wasTampered && verr != nil {
+				r.Violation("honest-response-rejected", "row-proof", "%s: the row the honest server returned does not verify: %v", what, verr)
+			}
+			if wasTampered || altered != "" {
+				tampered++
+				if verr != nil {
+					rejected++
+					trusted(cur, curName, what+" [rejected]")
+					continue
+				}
+				if altered == "" {
+					harmless++
+				}
+			}
+			if altered != "" {
+				if coordinated {
+					r.Finding("forged-response-verified", "C01:sql-row-column-mapping-not-authenticated", "%s verified a row that is not in the history (%s: %v) because the response's ColIdsByName had the ids of the two columns exchanged: the column-name-to-id mapping (like the column types and the key column ids) comes from the server without any proof", what, altered, row)
+					r.EndRun()
+				}
+				r.Violation("forged-response-verified", "row", "%s verified a row that is not in the history (%s: %v; response altered: %v %s)", what, altered, row, wasTampered, tam.what)
+			}
+			trusted(cur, curName, what)
+		}
+	}
+	r.Sig("c01b", nOps, tampered > 0, rejected > 0, harmless > 0, docProofs > 0, rowProofs > 0)
 	r.Sample(map[string]interface{}{"layer": "client/server", "operations": nOps, "responses_altered": tampered, "altered_rejected": rejected, "altered_but_result_identical": harmless})
 	if tampered > 0 {
 		r.Fault("response-altered")
